@@ -173,7 +173,7 @@ mod verif_c13 {
                 let v: $t = kani::any();
                 match AnyVisitor.$visit::<MockErr>(v) {
                     Ok(a) => {
-                        assert!(emitted(&a) == $ev(v));
+                        assert!(equiv(emitted(&a), $ev(v)));
                         std::mem::forget(a);
                     }
                     Err(_) => assert!(false),
@@ -255,7 +255,7 @@ mod verif_c13 {
                 let direct = emitted(&v);
                 match Any::new(v) {
                     Ok(a) => {
-                        assert!(emitted(&a) == direct);
+                        assert!(equiv(emitted(&a), direct));
                         std::mem::forget(a);
                     }
                     Err(_) => assert!(false),
@@ -428,8 +428,8 @@ mod verif_c13 {
         match &out.0 {
             Inner::Seq(v) => {
                 assert!(v.len() == 2);
-                assert!(matches!(v[0].0, Inner::U8(x) if x == a));
-                assert!(matches!(v[1].0, Inner::I64(x) if x == b));
+                assert!(equiv(emitted(&v[0]), Ev::U8(a)));
+                assert!(equiv(emitted(&v[1]), Ev::I64(b)));
             }
             _ => assert!(false),
         }
